@@ -179,7 +179,7 @@ prop("C10",
      _t(tier, ["-tables", "1", "-random", "800"], ["-tables", "4", "-random", "60000"]),
      trace=("Trace_Filter", "Trace_Filter.cfg"),
      required=["leaf:num:soft", "leaf:num:wrap", "leaf:seq:soft", "leaf:seq:wrap", "leaf:bool:soft", "leaf:bool:wrap",
-               "leaf:to1:soft", "leaf:toN:wrap", "op:in", "op:has", "op:nope", "tree:soft", "tree:wrap",
+               "leaf:to1:soft", "leaf:toN:wrap", "op:in", "op:has", "op:nope", "tree:soft", "tree:wrap", "tree:deep",
                "verdict:true", "verdict:false", "random"],
      level_text="The specification defines IsAllowed as logic with an explicit lexicographic order on symbol "
                 "sequences; TLC checks trichotomy, complement, <=/>= decomposition, transitivity, antisymmetry and "
@@ -265,7 +265,7 @@ _doc_common = dict(
     required=["kind:null", "kind:one", "kind:many", "kind:ident", "kind:idents", "kind:errors", "coll:resources",
               "coll:soft", "coll:wrapcol", "impl:soft", "impl:wrap", "included", "attrs-exposed", "rel-data:absent",
               "rel-data:null", "rel-data:one", "rel-data:many", "include:added", "include:skipped", "include:resources",
-              "member-with-wider-type"],
+              "member-with-wider-type", "served-a-narrower-request-before"],
     assumptions=["fixed two-type schema (t1: 2 attributes, to-one, to-many; t2: attribute, to-one), soft or struct-backed",
                  "documents are generated by the driver (seeded), TLC judges every recorded document",
                  "attribute values are representatives from the value tables; ids, prefixes and meta come from small "
@@ -464,7 +464,7 @@ prop("C13",
      driver=lambda tier, seed, gen, out: ["codec", "-mode", "partial", "-out", out, "-seed", str(seed), "-n",
                                           _t(tier, "1500", "150000")],
      required=["full:accept", "full:reject", "part:accept", "part:reject", "shape:absent", "shape:nodata", "shape:null",
-               "shape:ident", "shape:list", "shape:badshape", "impl:soft", "impl:wrap", "unknownrel:nodata", "unknownrel:ident", "trailing", "unknown-type-bare", "shape:listbadtail", "shape:badlinks-or-meta", "selfpair:accept"],
+               "shape:ident", "shape:list", "shape:badshape", "impl:soft", "impl:wrap", "unknownrel:nodata", "unknownrel:ident", "trailing", "unknown-type-bare", "shape:listbadtail", "shape:badlinks-or-meta", "selfpair:accept", "ptype:accept", "ptype:reject"],
      level_text="PartialOK: accepted iff full unmarshaling accepts; the result's type has the schema type's name, "
                 "exactly the attributes present in the payload and exactly the relationships whose object carries a "
                 "data member (explicit null included), each with the schema's definition and the value full "
